@@ -105,6 +105,39 @@ func extractC13() *lean {
 			return true
 		})
 	}
+	// does the grouping loop load all changes of the transaction (Where("transaction_id = ?", change.TransactionID).Find(&x); groupedChanges[...] = x)?
+	whole := false
+	if rb != nil {
+		ast.Inspect(rb, func(n ast.Node) bool {
+			rs, ok := n.(*ast.RangeStmt)
+			if !ok || exprString(rs.X) != "changes" {
+				return true
+			}
+			loads, assigns := false, false
+			ast.Inspect(rs.Body, func(m ast.Node) bool {
+				switch y := m.(type) {
+				case *ast.CallExpr:
+					if sel, ok := y.Fun.(*ast.SelectorExpr); ok && sel.Sel.Name == "Where" && len(y.Args) == 2 {
+						if lit, ok := y.Args[0].(*ast.BasicLit); ok && strings.Contains(lit.Value, "transaction_id = ?") && exprString(y.Args[1]) == "change.TransactionID" {
+							loads = true
+						}
+					}
+				case *ast.AssignStmt:
+					if len(y.Lhs) == 1 && exprString(y.Lhs[0]) == "groupedChanges[change.TransactionID]" && len(y.Rhs) == 1 {
+						if _, isCall := y.Rhs[0].(*ast.CallExpr); !isCall {
+							assigns = true
+						}
+					}
+				}
+				return true
+			})
+			if loads && assigns {
+				whole = true
+			}
+			return true
+		})
+	}
+	l.def("sweepLoadsWholeTransaction", "Bool", c13Bool(whole), whole)
 	l.def("sweepThresholdSeconds", "Nat", threshold, threshold)
 	l.def("sweepSelection", "String", fmt.Sprintf("%q", cmp), cmp)
 
